@@ -858,6 +858,33 @@ def cases(ctx):
         timeout = rng.choice([None, None, 10, 30, 0])
         qwire = message_of_abs(q).to_wire()
         yield "tcp", [9, q, qwire, timeout, rng.randrange(2), wevs, stream, revs, [[x, y] for x, y in tab.items()], rng.choice([0, 500])]
+    yield from fallback_cases(ctx, rng)
+
+
+def fallback_cases(ctx, rng):
+    for i in range(ctx.n(120, 2000)):
+        q, dest, evs, tab, v6 = gen_udp_script(ctx, rng, 5)
+        af = socket.AF_INET6 if v6 else socket.AF_INET
+        tabd = {w: a for w, a in tab}
+        port = dest[2][0]
+        good = mk_addr(dest[3].decode(), port)
+        if rng.random() < 0.7:
+            # a truncated (or plain) genuine reply at the end of the script
+            mid, flags, qs, opt, kind = mutate_response(rng, q, rng.choice(["tc", "tc", "genuine"]))
+            wire, pabs = build_dgram(mid, flags, qs, rng.choice(["ok", "cut_rdata", "count_over"]), 1, opt, b"", 77)
+            tabd[wire] = pabs
+            evs = evs + [[0, wire, good]]
+        _, w, a = small_msg(rng, q, rng.choice(["genuine", "genuine", "genuine", "id", "tc", None]))
+        tabd[w] = a
+        stream = struct.pack("!H", len(w)) + w
+        if rng.random() < 0.1:
+            stream = stream[: rng.randrange(len(stream))]
+        revs = sprinkle(rng, [[0, rng.choice([1, 2, 5, 100])] for _ in range(rng.randrange(len(stream) + 2))], "r", 0.15, 0.03)
+        wevs = sprinkle(rng, [[0, rng.choice([1, 2, 5, 100])] for _ in range(rng.randrange(6))], "w", 0.15)
+        o = rng.choice(OPTS)
+        timeout = rng.choice([None, 10, 30])
+        qwire = message_of_abs(q).to_wire()
+        yield "fallback", [10, q, qwire, dest, timeout, af, o, [[x, y] for x, y in tabd.items()], evs, wevs, stream, revs, rng.choice([0, 500])]
 
 
 # ------------------------------------------------------------------ implementation runner
@@ -1040,6 +1067,23 @@ def impl1(case):
         if err is not None:
             return err
         return [res.wire, abs_of_message(res), int(res.time), sock.sent, sock.stream]
+    if op == 10:
+        _, fl, q, qwire, where, timeout, af, o, tab, evs, wevs, stream, revs, now = case
+        CLOCK.now = now
+        usock = (USock if fl == 0 else AUSock)(af, [], evs)
+        tsock = (TSock if fl == 0 else ATSock)(stream_of(stream), revs, wevs)
+        qm = message_of_abs(q)
+        text, port = where[3].decode("latin-1"), where[2][0]
+        pre = (qm, text, timeout, port, None, 0, bool(o[0]), bool(o[1]), bool(o[2]), usock, tsock)
+        res, err = _call(
+            fl,
+            lambda: dns.query.udp_with_fallback(*pre, bool(o[4])),
+            lambda: dns.asyncquery.udp_with_fallback(*pre, None, bool(o[4])),
+        )
+        if err is not None:
+            return err
+        r, used = res
+        return [int(used), r.wire, abs_of_message(r), int(r.time)]
     raise ValueError("unknown op")
 
 
@@ -1179,6 +1223,28 @@ def oracle1(ctx, kind, case, out, flavour):
                 fail("tcp() returned a malformed message")
             elif not genuine(q, pe[1]):
                 fail("tcp() returned a message that is not a response to the query")
+    elif op == 10:
+        _, fl, q, qwire, where, timeout, af, o, tab, evs, wevs, stream, revs, now = case
+        if isinstance(out, Err):
+            return F
+        used, wire, m, tm = out
+        t = {stream_of(w): a for w, a in tab}
+        s = stream_of(stream)
+        if wire in t:
+            pe = expected_parse(t[wire], o[2], 0 if used else 1)
+            if pe[0] != "ok":
+                fail("udp_with_fallback returned a malformed or (over UDP) truncated message")
+            elif not genuine(q, pe[1]):
+                fail("udp_with_fallback returned a message that is not a response to the query")
+        if used:
+            if len(s) < 2 or s[2: 2 + struct.unpack("!H", s[:2])[0]] != wire:
+                fail("the TCP answer is not the first frame of the stream")
+        else:
+            src = [ev for ev in evs if ev[0] == 0 and ev[1] == wire]
+            if not src:
+                fail("the UDP answer is not a datagram of the script")
+            elif af in (socket.AF_INET, socket.AF_INET6) and not any(source_ok(af, ev[2], where) for ev in src):
+                fail("the UDP answer did not come from the queried address and port")
     return F
 
 
